@@ -769,6 +769,7 @@ class FnItem:
         self.mod, self.owner, self.trait, self.name = mod, owner, trait, name
         self.toks, self.sig_i, self.generic, self.rel = toks, sig_i, generic, rel
         self.parsed = None
+        self.mut_self = False  # `&mut self` receiver (see parse)
         self.tsubst = {}       # type parameter of the enclosing generic impl -> the concrete type it is read at
         self.gimpl = None      # header of the enclosing generic impl (see Crate.impl_header)
 
@@ -790,17 +791,19 @@ class FnItem:
             return self.parsed[:3] if sig_only else self.parsed
         p = Parser(self.toks, self.sig_i, self.tsubst)
         p.expect("(")
-        params, has_self = [], False
+        params, has_self, mut_self = [], False, False
         while not p.at(")"):
             if p.at("#"):
                 raise Refuse("attribute on a parameter")
             if (p.at("self") or (p.at("&") and (p.at("self", 1) or (p.peek(1).k == "life" and p.at("self", 2))))
+                    or (p.at("&") and p.at("mut", 1) and p.at("self", 2))
+                    or (p.at("&") and p.peek(1).k == "life" and p.at("mut", 2) and p.at("self", 3))
                     or (p.at("mut") and p.at("self", 1))):
                 if p.eat("&"):
                     if p.peek().k == "life":
                         p.i += 1
-                    if p.at("mut"):
-                        raise Refuse("`&mut self` receiver")
+                    if p.eat("mut"):
+                        mut_self = True
                 if p.eat("mut"):
                     raise Refuse("`mut self` receiver")
                 p.expect("self")
@@ -820,6 +823,8 @@ class FnItem:
         if p.eat("->"):
             ret = p.parse_type()
         if sig_only:
+            if mut_self:
+                raise Refuse("`&mut self` receiver")
             return (params, has_self, ret)
         if p.at("where"):
             raise Refuse("where clause")
@@ -827,6 +832,16 @@ class FnItem:
             raise Refuse("function without a body")
         body = p.parse_block()
         self.idents = {t.v for t in self.toks[self.sig_i:p.i] if t.k == "id"}
+        if mut_self:
+            # `fn f(&mut self, …)` without a result: read as the function from the old value of `*self` to the new
+            # one — `self` is a re-bound local (`*self = e;` is the only way it is written), the result is its
+            # final value
+            if ret != ("unit",):
+                raise Refuse("`&mut self` receiver in a function with a result")
+            stmts = list(body.stmts) + ([N("estmt", e=body.tail)] if body.tail is not None else [])
+            body = N("block", stmts=stmts, tail=N("path", segs=["self"]))
+            ret = ("self",)
+        self.mut_self = mut_self
         self.parsed = (params, has_self, ret, body)
         return self.parsed
 
@@ -1159,6 +1174,10 @@ class Crate:
                 gi = None
                 if not is_trait and generic_hdr:
                     gi = self.impl_header(hdr, iparams)
+                    if gi is not None and not gi["tparams"] and not gi["args"] and gi["tname"] and gi["base"] != "Self":
+                        # `impl Mul<i32> for TimeDelta`: only the trait has arguments; filed like `impl Neg for …`
+                        # (two such impls of one trait give two candidates for a name, which is refused)
+                        own, trt, gi = gi["base"], gi["tname"], None
                 if not is_trait and not generic_hdr and not cfg and own and trt:
                     self.impls.append((trt, own))
                 p.i += 1
@@ -1834,6 +1853,8 @@ class FnFront:
         info = self.gen.fn_info(item)
         if len(info.params) != len(e.args):
             raise Refuse(f"call of {item.rust_path()}: argument count")
+        if info.mut_self:
+            raise Refuse(f"call of {item.rust_path()}, which takes `&mut self`")
         for (pn, pt), a_ in zip(info.params, e.args):
             T.unify(self.infer(a_, env, pt), pt, f"(argument `{pn}` of {item.rust_path()})")
         e.res = ("fn", info)
@@ -1885,6 +1906,8 @@ class FnFront:
             info = self.gen.fn_info(item)
             if not info.has_self:
                 raise Refuse(f"{item.rust_path()} called as a method but has no self")
+            if info.mut_self:
+                raise Refuse(f"call of {item.rust_path()}, which takes `&mut self`")
             if len(info.params) != len(e.args) + 1:
                 raise Refuse(f"call of {item.rust_path()}: argument count")
             for (pn, pt), a_ in zip(info.params[1:], e.args):
@@ -2808,6 +2831,7 @@ class FnInfo:
         self.lean = self.text = self.ret = self.params = None
         self.impure = False
         self.has_self = False
+        self.mut_self = False
 
 
 PRIM_CK = {"i32": "ckI32", "i64": "ckI64", "u32": "ckU32", "u64": "ckU64"}
@@ -3272,6 +3296,7 @@ class Gen:
             raise self.infos[key]
         self.infos[key] = info
         self.order.append(info)
+        info.mut_self = item.mut_self
         return info
 
     def translate(self, item):
